@@ -469,6 +469,20 @@ example :
 
 end bounded
 
+/-! ### negative witness: audit writes that refuse to overwrite (`BPF_NOEXIST`) keep a stale record under a source port used again -/
+def updateNoExist {κ β} [DecidableEq κ] (m : List (κ × β)) (k : κ) (v : β) : List (κ × β) :=
+  if (lookup m k).isSome then m else update m k v
+
+theorem noexist_keeps_the_earlier_callers_record :
+    let earlier : Thread := { pidTgid := 7 * 2 ^ 32 + 7, uidGid := 1000 }
+    let later : Thread := { pidTgid := 9 * 2 ^ 32 + 9, uidGid := 0 }
+    -- an earlier connection from source port 40123 (uid 1000, to IMDS) left its record; root now connects to WireServer from that port
+    let audit0 := update ([] : List ((Nat × Nat) × AuditVal)) (6, 40123) (mkAudit earlier (netIp 169 254 169 254) (bswap16 80))
+    lookup (updateNoExist audit0 (6, 40123) (mkAudit later (netIp 168 63 129 16) (bswap16 80))) (6, 40123) =
+        some (mkAudit earlier (netIp 169 254 169 254) (bswap16 80)) ∧
+    lookup (update audit0 (6, 40123) (mkAudit later (netIp 168 63 129 16) (bswap16 80))) (6, 40123) =
+        some (mkAudit later (netIp 168 63 129 16) (bswap16 80)) := by decide
+
 /-! ### where the hook is attached -/
 section attach
 open Gpa.Attach
